@@ -1,7 +1,7 @@
 //! C07 — gather() is complete, canonically ordered and deterministic; and
 //! C14 — a gathered family never mixes metric types.
-//! Hosted in `crate::registry`. The registry's maps are the abstract finite map with
-//! **symbolic iteration order** (E6): "every hash seed" is a solver variable.
+//! Hosted in `crate::registry`. The registry's maps are the abstract finite map (E6); iteration
+//! orders (= registration orders / hash seeds) are enumerated explicitly.
 use crate::verif_incrate::common::*;
 use super::*;
 use crate::desc::Desc;
@@ -116,46 +116,74 @@ fn fam_a_gauge_l2(x: u8, _y: u8) -> Vec<proto::MetricFamily> {
     vec![fam("a", "h", MetricType::GAUGE, vec![gauge_metric(vec![lp("l", "2")], x)])]
 }
 
-/// Three collectors (counter "b", gauge "a", a vector "c" without children), any iteration order
-/// of the collector map: one family per name with samples, strictly increasing names, declared
-/// help and type, real values; the empty family is dropped.
-#[cfg_attr(kani, kani::proof, kani::unwind(6), kani::stub(std::fmt::format, fmt_stub))]
-pub fn c07_families_sorted_complete_any_order() {
-    crate::verif_map::set_symbolic_order(true);
-    let (x, y) = (any_u8(), any_u8());
+/// the registry's maps iterate in insertion order here (symbolic order off); "every registration
+/// order / every hash seed" is covered by enumerating the insertion orders explicitly, which keeps
+/// the dynamic dispatch over collectors concrete (a symbolic order over `Box<dyn Collector>` did
+/// not finish)
+fn reg3(order: u8, x: u8, y: u8) -> RegistryCore {
     let mut core = RegistryCore::default();
-    core.register(Box::new(Lit { desc: d("b", 1), fams: fam_b, x, y: 0 })).unwrap();
-    core.register(Box::new(Lit { desc: d("a", 2), fams: fam_a, x: y, y: 0 })).unwrap();
-    core.register(Box::new(Lit { desc: d("c", 4), fams: fam_c_empty, x: 0, y: 0 })).unwrap();
-    let g = core.gather();
+    let b = || Box::new(Lit { desc: d("b", 1), fams: fam_b, x, y: 0 }) as Box<dyn Collector>;
+    let a = || Box::new(Lit { desc: d("a", 2), fams: fam_a, x: y, y: 0 }) as Box<dyn Collector>;
+    let c = || Box::new(Lit { desc: d("c", 4), fams: fam_c_empty, x: 0, y: 0 }) as Box<dyn Collector>;
+    match order {
+        0 => { core.register(b()).unwrap(); core.register(a()).unwrap(); core.register(c()).unwrap(); }
+        1 => { core.register(a()).unwrap(); core.register(c()).unwrap(); core.register(b()).unwrap(); }
+        _ => { core.register(c()).unwrap(); core.register(b()).unwrap(); core.register(a()).unwrap(); }
+    }
+    core
+}
+fn check3(g: &[proto::MetricFamily], x: u8, y: u8) {
     assert!(g.len() == 2, "C07 one family per registered metric name that currently has samples");
     assert!(g[0].name() == "a" && g[1].name() == "b", "C07 families in strictly increasing name order");
     assert!(g[0].help() == "ha" && g[0].get_field_type() == MetricType::GAUGE, "C07 declared help and type");
     assert!(g[1].help() == "hb" && g[1].get_field_type() == MetricType::COUNTER, "C07 declared help and type");
     assert!(g[0].get_metric().len() == 1 && g[0].get_metric()[0].get_gauge().get_value() == y as f64, "C07 every sample exactly once with its value");
     assert!(g[1].get_metric().len() == 1 && g[1].get_metric()[0].get_counter().get_value() == x as f64, "C07 every sample exactly once with its value");
-    std::mem::forget(g);
-    std::mem::forget(core);
+}
+/// Three collectors (counter "b", gauge "a", a vector "c" without children) in three different
+/// registration (= iteration) orders: one family per name with samples, strictly increasing
+/// names, declared help and type, real values; the empty family is dropped; same result.
+#[cfg_attr(kani, kani::proof, kani::unwind(6), kani::stub(std::fmt::format, fmt_stub))]
+pub fn c07_families_sorted_complete_any_order() {
+    let (x, y) = (any_u8(), any_u8());
+    let c0 = reg3(0, x, y);
+    let g0 = c0.gather();
+    check3(&g0, x, y);
+    let c1 = reg3(1, x, y);
+    let g1 = c1.gather();
+    check3(&g1, x, y);
+    let c2 = reg3(2, x, y);
+    let g2 = c2.gather();
+    check3(&g2, x, y);
+    assert!(same_gather(&g0, &g1) && same_gather(&g0, &g2), "C07 the result is the same for every registration order");
+    std::mem::forget((g0, g1, g2));
+    std::mem::forget((c0, c1, c2));
 }
 
-/// Registry prefix and two common labels: applied to every family and sample, and the result does
-/// not depend on the iteration order of the label map (gathered twice, the order re-drawn).
-#[cfg_attr(kani, kani::proof, kani::unwind(6))]
-pub fn c07_prefix_and_common_labels_deterministic() {
-    crate::verif_map::set_symbolic_order(true);
-    let x = any_u8();
+fn reg_labels(first_l1: bool, x: u8) -> RegistryCore {
     let mut core = RegistryCore::default();
     let mut labels = HashMap::new();
-    labels.insert(String::from("l1"), String::from("1"));
-    labels.insert(String::from("l2"), String::from("2"));
+    if first_l1 {
+        labels.insert(String::from("l1"), String::from("1"));
+        labels.insert(String::from("l2"), String::from("2"));
+    } else {
+        labels.insert(String::from("l2"), String::from("2"));
+        labels.insert(String::from("l1"), String::from("1"));
+    }
     core.labels = Some(labels);
     core.prefix = Some(String::from("p"));
     core.register(Box::new(Lit { desc: d("a", 1), fams: fam_k, x, y: 0 })).unwrap();
-    let g1 = core.gather();
-    if let Some(l) = core.labels.as_mut() {
-        l.redraw_order();
-    }
-    let g2 = core.gather();
+    core
+}
+/// Registry prefix and two common labels: applied to every family and sample, and the result does
+/// not depend on the iteration order of the label map (both orders of a 2-entry map).
+#[cfg_attr(kani, kani::proof, kani::unwind(6))]
+pub fn c07_prefix_and_common_labels_deterministic() {
+    let x = any_u8();
+    let c1 = reg_labels(true, x);
+    let g1 = c1.gather();
+    let c2 = reg_labels(false, x);
+    let g2 = c2.gather();
     assert!(g1.len() == 1 && g1[0].name() == "p_a", "C07 registry prefix applied to every family");
     let lps = g1[0].get_metric()[0].get_label();
     assert!(lps.len() == 3, "C07 common labels applied to every sample");
@@ -170,41 +198,44 @@ pub fn c07_prefix_and_common_labels_deterministic() {
     };
     assert!(has("k", "v") && has("l1", "1") && has("l2", "2"), "C07 own and common labels all present");
     assert!(same_gather(&g1, &g2), "C07 gather() is the same for every hash seed (map iteration order)");
-    std::mem::forget(g1);
-    std::mem::forget(g2);
-    std::mem::forget(core);
+    std::mem::forget((g1, g2));
+    std::mem::forget((c1, c2));
 }
 
-/// Two collectors under one name ("v": children l=2,l=1 and l=3), any iteration order: merged
-/// into one family, samples ordered lexicographically by label values, each exactly once.
-#[cfg_attr(kani, kani::proof, kani::unwind(6), kani::stub(std::fmt::format, fmt_stub))]
-pub fn c07_same_name_samples_sorted_by_label_values() {
-    crate::verif_map::set_symbolic_order(true);
-    let (x, y, z) = (any_u8(), any_u8(), any_u8());
+fn reg_same_name(first_v21: bool, x: u8, y: u8, z: u8) -> RegistryCore {
     let mut core = RegistryCore::default();
-    core.register(Box::new(Lit { desc: d("v", 1), fams: fam_v21, x, y })).unwrap();
-    core.register(Box::new(Lit { desc: d("v", 2), fams: fam_v3, x: z, y: 0 })).unwrap();
-    let g = core.gather();
+    let v21 = || Box::new(Lit { desc: d("v", 1), fams: fam_v21, x, y }) as Box<dyn Collector>;
+    let v3 = || Box::new(Lit { desc: d("v", 2), fams: fam_v3, x: z, y: 0 }) as Box<dyn Collector>;
+    if first_v21 { core.register(v21()).unwrap(); core.register(v3()).unwrap(); } else { core.register(v3()).unwrap(); core.register(v21()).unwrap(); }
+    core
+}
+fn check_same_name(g: &[proto::MetricFamily], x: u8, y: u8, z: u8) {
     assert!(g.len() == 1 && g[0].get_field_type() == MetricType::COUNTER, "C07 one family of the declared type");
     let ms = g[0].get_metric();
     assert!(ms.len() == 3, "C07 every sample of every collector registered under the name exactly once");
     assert!(ms[0].get_label()[0].value() == "1" && ms[1].get_label()[0].value() == "2" && ms[2].get_label()[0].value() == "3", "C07 samples ordered lexicographically by label values");
     assert!(ms[0].get_counter().get_value() == x as f64 && ms[1].get_counter().get_value() == y as f64 && ms[2].get_counter().get_value() == z as f64, "C07 every sample carries its value");
-    std::mem::forget(g);
-    std::mem::forget(core);
+}
+/// Two collectors under one name ("v": children l=2,l=1 and l=3), both registration orders: merged
+/// into one family, samples ordered lexicographically by label values, each exactly once.
+#[cfg_attr(kani, kani::proof, kani::unwind(6), kani::stub(std::fmt::format, fmt_stub))]
+pub fn c07_same_name_samples_sorted_by_label_values() {
+    let (x, y, z) = (any_u8(), any_u8(), any_u8());
+    let c1 = reg_same_name(true, x, y, z);
+    let g1 = c1.gather();
+    check_same_name(&g1, x, y, z);
+    let c2 = reg_same_name(false, x, y, z);
+    let g2 = c2.gather();
+    check_same_name(&g2, x, y, z);
+    std::mem::forget((g1, g2));
+    std::mem::forget((c1, c2));
 }
 
-/// C14: a counter and a gauge that share name, help and label names but differ in const-label
-/// values are both admitted (ids differ, dimension equal). Every sample of the gathered family
-/// must carry a value of the family's declared type, whatever the iteration order.
-#[cfg_attr(kani, kani::proof, kani::unwind(6), kani::stub(std::fmt::format, fmt_stub))]
-pub fn c14_counter_and_gauge_under_one_name() {
-    crate::verif_map::set_symbolic_order(true);
-    let (x, y) = (any_u8(), any_u8());
-    assume(x != 0 && y != 0);
+fn c14_case(counter_first: bool, x: u8, y: u8) {
     let mut core = RegistryCore::default();
-    let r1 = core.register(Box::new(Lit { desc: d("a", 1), fams: fam_a_counter_l1, x, y: 0 }));
-    let r2 = core.register(Box::new(Lit { desc: d("a", 2), fams: fam_a_gauge_l2, x: y, y: 0 }));
+    let c = || Box::new(Lit { desc: d("a", 1), fams: fam_a_counter_l1, x, y: 0 }) as Box<dyn Collector>;
+    let gg = || Box::new(Lit { desc: d("a", 2), fams: fam_a_gauge_l2, x: y, y: 0 }) as Box<dyn Collector>;
+    let (r1, r2) = if counter_first { (core.register(c()), core.register(gg())) } else { (core.register(gg()), core.register(c())) };
     if r1.is_ok() && r2.is_ok() {
         let g = core.gather();
         let mut i = 0;
@@ -224,12 +255,49 @@ pub fn c14_counter_and_gauge_under_one_name() {
     }
     std::mem::forget(core);
 }
+/// C14: a counter and a gauge that share name, help and label names but differ in const-label
+/// values are both admitted (ids differ, dimension equal). Every sample of the gathered family
+/// must carry a value of the family's declared type, in both registration orders.
+#[cfg_attr(kani, kani::proof, kani::unwind(6), kani::stub(std::fmt::format, fmt_stub))]
+pub fn c14_counter_and_gauge_under_one_name() {
+    let (x, y) = (any_u8(), any_u8());
+    assume(x != 0 && y != 0);
+    c14_case(true, x, y);
+    c14_case(false, x, y);
+}
+
+fn fam_two_labels(x: u8, y: u8) -> Vec<proto::MetricFamily> {
+    // emitted in the order ("ab","a"), ("a","c"), ("a","bc"): lexicographic order by label values is
+    // ("a","bc") < ("a","c") < ("ab","a")
+    vec![fam("w", "hw", MetricType::COUNTER, vec![
+        counter_metric(vec![lp("l1", "ab"), lp("l2", "a")], x),
+        counter_metric(vec![lp("l1", "a"), lp("l2", "c")], y),
+        counter_metric(vec![lp("l1", "a"), lp("l2", "bc")], 7),
+    ])]
+}
+/// Samples with two labels where one value is a prefix of another: ordered lexicographically by
+/// the label-value *tuple* (position by position), not by any concatenation.
+#[cfg_attr(kani, kani::proof, kani::unwind(6), kani::stub(std::fmt::format, fmt_stub))]
+pub fn c07_two_label_samples_sorted_by_value_tuples() {
+    let (x, y) = (any_u8(), any_u8());
+    let mut core = RegistryCore::default();
+    core.register(Box::new(Lit { desc: d("w", 1), fams: fam_two_labels, x, y })).unwrap();
+    let g = core.gather();
+    let ms = g[0].get_metric();
+    assert!(ms.len() == 3, "C07 every sample exactly once");
+    assert!(ms[0].get_label()[1].value() == "bc" && ms[0].get_counter().get_value() == 7.0, "C07 samples ordered lexicographically by label values");
+    assert!(ms[1].get_label()[1].value() == "c" && ms[1].get_counter().get_value() == y as f64, "C07 samples ordered lexicographically by label values");
+    assert!(ms[2].get_label()[0].value() == "ab" && ms[2].get_counter().get_value() == x as f64, "C07 samples ordered lexicographically by label values");
+    std::mem::forget(g);
+    std::mem::forget(core);
+}
 
 pub fn dispatch(name: &str) -> Option<fn()> {
     Some(match name {
         "c07_families_sorted_complete_any_order" => c07_families_sorted_complete_any_order,
         "c07_prefix_and_common_labels_deterministic" => c07_prefix_and_common_labels_deterministic,
         "c07_same_name_samples_sorted_by_label_values" => c07_same_name_samples_sorted_by_label_values,
+        "c07_two_label_samples_sorted_by_value_tuples" => c07_two_label_samples_sorted_by_value_tuples,
         "c14_counter_and_gauge_under_one_name" => c14_counter_and_gauge_under_one_name,
         _ => return None,
     })
